@@ -2,7 +2,9 @@
 package props
 
 import (
+	_ "verifharness/internal/c01"
 	_ "verifharness/internal/c02"
+	_ "verifharness/internal/c03"
 	_ "verifharness/internal/c04"
 	_ "verifharness/internal/c05"
 	_ "verifharness/internal/c06"
